@@ -69,6 +69,18 @@ class BadWriter(FloatOperation):
         return data
 
 
+class Clip(FloatOperation):
+    """min(data, upper) with an unbounded default"""
+
+    def _process_logic(self, data, upper: float = float("inf"), lower: float = float("-inf")):
+        return FloatDataType(max(min(data.data, upper), lower))
+
+
+class ClipBoom(FloatOperation):
+    def _process_logic(self, data, upper: float = float("inf")):
+        raise ValueError("boom after resolving a non-finite parameter")
+
+
 GOOD = [{"processor": FloatValueDataSourceWithDefault}, {"processor": FloatSquareOperation},
         {"processor": FloatCollectValueProbe, "context_key": "seen"}, {"processor": FloatMultiplyOperation, "parameters": {"factor": 2.0}}]
 FAILS = {
@@ -166,6 +178,13 @@ def check(nodes, fail_at, kind, detail, as_dir):
 
 
 details = ["hash", "repr", "context", "all"]
+# parameter values that are floats without a finite value (defaults, configuration, context): the run returns and is traced in full
+SRC = {"processor": FloatValueDataSourceWithDefault}
+for label, nodes, fails in (("non-finite-default", [SRC, {"processor": Clip}], False),
+                            ("non-finite-configuration", [SRC, {"processor": Clip, "parameters": {"upper": float("nan"), "lower": float("-inf")}}, {"processor": FloatSquareOperation}], False),
+                            ("non-finite-default-then-processor-exception", [SRC, {"processor": ClipBoom}], True)):
+    for d in details:
+        check([dict(x) for x in nodes], 1 if fails else None, "processor-exception:non-finite-parameter" if fails else None, d, d == "repr")
 for n in (1, 2, 3, 4):
     nodes = GOOD[:n]
     for d in (details if thorough else details[: 2 if n < 4 else 4]):
@@ -176,7 +195,7 @@ for n in (1, 2, 3, 4):
             m = list(nodes[:fail_at]) + [dict(bad)] + list(nodes[fail_at:n - 1]) if fail_at < n else list(nodes) + [dict(bad)]
             for d in (details if thorough else [details[(fail_at + n) % 4]]):
                 check(m, fail_at, kind, d, (fail_at + n) % 3 == 0)
-print(json.dumps({"bound": "pipelines of 1..4 nodes x failing node at every index >= 1 x 11 failure kinds x detail levels {hash,repr,context,all} x file/directory output",
+print(json.dumps({"bound": "pipelines of 1..4 nodes x failing node at every index >= 1 x 11 failure kinds x detail levels {hash,repr,context,all} x file/directory output; 3 pipelines whose resolved parameters are non-finite floats (default, configuration, before a processor exception) x 4 detail levels",
                   "evaluations": evaluations, "distinct_nontrivial": len(distinct),
                   "rule": "distinct = (failure kind, failing index, length); every emitted line validated with jsonschema against the registry schema of its record_type",
                   "failures": failures[:40], "samples": samples}, default=str))
